@@ -57,6 +57,7 @@ class Tr:
         self.pruned = []         # hashes of the branches decided at translation time
         self.defs = []           # emitted definitions
         self.tmp = 0
+        self.loopctx = None
         self.static_none = sig['static_none']
 
     def coqty(self, t):
@@ -88,6 +89,8 @@ class Tr:
         if isinstance(e, ast.Constant):
             if isinstance(e.value, str):
                 return lit(e.value), 'text'
+            if type(e.value) is int and e.value >= 0:
+                return '%d%%nat' % e.value, 'nat'
             no(e, 'constant %r' % (e.value,))
         if isinstance(e, ast.JoinedStr):
             parts = []
@@ -121,6 +124,8 @@ class Tr:
             b, tb = self.expr(e.right, env, binds)
             if ta == 'text' and tb == 'text':
                 return '(%s ++ %s)' % (a, b), 'text'
+            if ta == 'nat' and tb == 'nat':
+                return '(%s + %s)%%nat' % (a, b), 'nat'
             no(e, '+ on %s, %s' % (ta, tb))
         if isinstance(e, ast.IfExp):
             st = self.static_test(e.test)
@@ -160,6 +165,24 @@ class Tr:
             if not lty:
                 no(e, 'list literal of mixed types')
             return '[' + '; '.join(t for t, _ in items) + ']', lty[0]
+        if isinstance(e, ast.Subscript) and isinstance(e.slice, ast.Slice):
+            sl = e.slice
+            def bound(b):
+                if b is None:
+                    return ''
+                if isinstance(b, ast.Constant) and type(b.value) is int:
+                    return str(b.value)
+                if isinstance(b, ast.UnaryOp) and isinstance(b.op, ast.USub) and isinstance(b.operand, ast.Constant) \
+                        and type(b.operand.value) is int:
+                    return '-%d' % b.operand.value
+                no(e, 'slice bound')
+            if sl.step is not None:
+                no(e, 'slice step')
+            v, vty = self.expr(e.value, env, binds)
+            ent = self.sig.get('slices', {}).get('%s[%s:%s]' % (vty, bound(sl.lower), bound(sl.upper)))
+            if ent is None:
+                no(e, 'slice %s[%s:%s]' % (vty, bound(sl.lower), bound(sl.upper)))
+            return '(%s %s)' % (ent['coq'], v), ent['ret']
         if isinstance(e, ast.Subscript):
             if isinstance(e.value, ast.Attribute) and isinstance(e.value.value, ast.Name) \
                     and e.value.value.id == 'self':
@@ -331,12 +354,29 @@ class Tr:
             if name in self.sig['reserved'] or name in self.static_none:
                 no(s, 'assignment to %s' % name)
             binds = []
-            t, ty = self.expr(s.value, env, binds)
+            if isinstance(s.value, ast.Constant) and s.value.value is False and name in self.sig.get('false_as_none', {}):
+                t, ty = 'None', self.sig['false_as_none'][name]
+            else:
+                t, ty = self.expr(s.value, env, binds)
             if name in env and env[name] != ty:
-                no(s, 'retyping of %s' % name)
+                co = self.sig.get('coerce', {}).get('%s->%s' % (ty, env[name]))
+                if co is None:
+                    no(s, 'retyping of %s' % name)
+                t, ty = '(%s %s)' % (co, t), env[name]
             env2 = dict(env)
             env2[name] = ty
             return self.wrap(binds, 'let %s := %s in\n%s' % (name, t, self.block(rest, env2, k)))
+        if isinstance(s, ast.AugAssign):
+            if not (isinstance(s.target, ast.Name) and isinstance(s.op, ast.Add) and s.target.id in env):
+                no(s, 'augmented assignment')
+            return self.block([ast.copy_location(ast.Assign(
+                targets=[ast.Name(id=s.target.id, ctx=ast.Store())],
+                value=ast.copy_location(ast.BinOp(left=ast.Name(id=s.target.id, ctx=ast.Load()), op=ast.Add(), right=s.value), s)), s)]
+                + rest, env, k)
+        if isinstance(s, ast.Continue) and self.loopctx:
+            return self.loopctx[0](env)
+        if isinstance(s, ast.Break) and self.loopctx:
+            return self.loopctx[1](env)
         if isinstance(s, ast.Expr):
             c = s.value
             if isinstance(c, ast.Call) and isinstance(c.func, ast.Attribute) and c.func.attr == 'append' \
@@ -356,6 +396,14 @@ class Tr:
                 taken, other = (s.body, s.orelse) if st else (s.orelse, s.body)
                 self.pruned.append(dump_hash(other))
                 return self.block(list(taken) + rest, env, k)
+            if any(isinstance(st, (ast.Continue, ast.Break))
+                   for st in ast.walk(ast.Module(body=list(s.body) + list(s.orelse), type_ignores=[]))):
+                # a branch leaves the loop body: no join point, what follows is copied into both branches
+                binds = []
+                c = self.cond(s.test, env, binds)
+                a = self.block(list(s.body) + rest, env, k)
+                b = self.block(list(s.orelse) + rest, env, k)
+                return self.wrap(binds, 'if %s then\n%s\nelse\n%s' % (c, a, b))
             # join point: the branches hand the variables they (both) define to what follows
             names = []
             for st in ast.walk(ast.Module(body=list(s.body) + list(s.orelse), type_ignores=[])):
@@ -402,7 +450,55 @@ class Tr:
             no(s, 'message text not in the signature file')
         return 'RErr %s' % ent
 
+    def for1_(self, s, rest, env, k):
+        it = s.iter
+        if s.orelse or not isinstance(it, ast.Name) or env.get(it.id) not in self.sig['elem']:
+            no(s, 'for iterable')
+        acc = self.sig['loop_state']
+        for n in acc:
+            if n not in env:
+                no(s, 'loop state %s undefined' % n)
+        x = s.target.id
+        fname = '%s_loop' % self.sig.get('coq_name', self.sig['method'])
+        free = [n for n in env if n not in acc and n != it.id and n not in self.sig['section_vars'] and n not in self.localfns]
+        if 'items' in env or x in acc:
+            no(s, 'reserved name')
+        env2 = dict(env)
+        env2[x] = self.sig['elem'][env[it.id]]
+        del env2[it.id]      # the list being walked is not visible inside the body
+        accval = '(%s)' % ', '.join(acc) if len(acc) > 1 else acc[0]
+
+        def chk(e3):
+            for n in acc:
+                if e3.get(n) != env[n]:
+                    no(s, 'loop state %s retyped' % n)
+        def again(e3):
+            chk(e3)
+            return '%s %s items %s' % (fname, ' '.join(free), ' '.join(acc))
+        def leave(e3):
+            chk(e3)
+            return 'ROk %s' % accval
+        for st in ast.walk(ast.Module(body=list(s.body), type_ignores=[])):
+            if isinstance(st, (ast.Return, ast.For, ast.While)):
+                no(st, 'return / nested loop in a loop')
+        old = self.loopctx
+        self.loopctx = (again, leave)
+        body = self.block(list(s.body), env2, again)
+        self.loopctx = old
+        accty = '(%s)%%type' % ' * '.join(self.coqty(env[n]) for n in acc) if len(acc) > 1 else self.coqty(env[acc[0]])
+        params = ''.join(' (%s : %s)' % (n, self.coqty(env[n])) for n in free)
+        self.defs.append(
+            'Fixpoint %s%s (items : %s) %s : result (%s) :=\n'
+            'match items with\n| [] => ROk %s\n| %s :: items =>\n%s\nend.'
+            % (fname, params, self.coqty(env[it.id]),
+               ' '.join('(%s : %s)' % (n, self.coqty(env[n])) for n in acc), accty, accval, x, body))
+        after = self.block(rest, env, k)
+        pat = accval if len(acc) == 1 else "'%s" % accval
+        return 'rbind (%s %s %s %s) (fun %s =>\n%s)' % (fname, ' '.join(free), it.id, ' '.join(acc), pat, after)
+
     def for_(self, s, rest, env, k):
+        if isinstance(s.target, ast.Name):
+            return self.for1_(s, rest, env, k)
         if s.orelse or not (isinstance(s.target, ast.Tuple) and len(s.target.elts) == 2
                             and all(isinstance(x, ast.Name) for x in s.target.elts)):
             no(s, 'for target')
@@ -420,7 +516,7 @@ class Tr:
             if n not in env:
                 no(s, 'loop state %s undefined' % n)
         x, y = s.target.elts[0].id, s.target.elts[1].id
-        fname = '%s_loop' % self.sig['method']
+        fname = '%s_loop' % self.sig.get('coq_name', self.sig['method'])
         free = [n for n in env if n not in acc and n not in self.sig['section_vars'] and n not in self.localfns]
         env2 = dict(env)
         env2[x] = self.sig['elem'][ta]
@@ -503,22 +599,39 @@ def translate(sigpath, repo):
     if fn is None:
         raise Unsupported('method %s missing' % sig['method'])
     a = fn.args
-    if a.vararg or a.kwarg or a.kwonlyargs or a.posonlyargs or fn.decorator_list:
-        no(fn, 'parameter list')
+    if a.vararg or a.kwarg or a.kwonlyargs or a.posonlyargs or [ast.dump(d) for d in fn.decorator_list] != sig.get('decorators', []):
+        no(fn, 'parameter list / decorators')
     names = [x.arg for x in a.args]
-    if names != ['self'] + [p['name'] for p in sig['params']]:
+    lead = [] if sig.get('static') else ['self']
+    if names != lead + [p['name'] for p in sig['params']]:
         no(fn, 'parameters %s' % names)
     defaults = [None] * (len(names) - len(a.defaults)) + list(a.defaults)
-    for p, d in zip(sig['params'], defaults[1:]):
+    for p, d in zip(sig['params'], defaults[len(lead):]):
         got = None if d is None else ast.dump(d)
         if got != p['default']:
             no(fn, 'default of %s' % p['name'])
     tr = Tr(sig)
-    env = {'self': sig['self_type']}
+    env = {} if sig.get('static') else {'self': sig['self_type']}
     for p in sig['params']:
-        if p['name'] not in sig['static_none']:
+        if p['name'] not in sig['static_none'] and not p.get('omit'):
             env[p['name']] = p['type']
-    body = tr.block(strip_doc(list(fn.body)), env, lambda e: no(fn, 'the method can end without a return'))
+    stmts = strip_doc(list(fn.body))
+    if 'region' in sig:
+        # only the statements region[0] .. region[1] are translated; all the others are pinned by AST hash
+        lo, hi = sig['region']
+        others = stmts[:lo] + stmts[hi + 1:]
+        if dump_hash(others) != sig['rest_hash']:
+            raise Unsupported('the statements of %s outside the translated region changed (AST hash %s, signature file has %s)'
+                              % (sig['method'], dump_hash(others), sig['rest_hash']))
+
+        def fin(e):
+            for n, t in sig['region_out']:
+                if e.get(n) != t:
+                    no(fn, 'region result %s has type %s' % (n, e.get(n)))
+            return 'ROk (%s)' % ', '.join(n for n, _ in sig['region_out'])
+        body = tr.block(stmts[lo:hi + 1], env, fin)
+    else:
+        body = tr.block(stmts, env, lambda e: no(fn, 'the method can end without a return'))
     if tr.pruned != sig['pruned']:
         raise Unsupported('a branch for %s not None changed (AST hashes %s, signature file has %s)'
                           % ('/'.join(sig['static_none']), tr.pruned, sig['pruned']))
@@ -535,7 +648,7 @@ def translate(sigpath, repo):
     for d in tr.defs:
         out.append(d)
         out.append('')
-    out.append('Definition %s%s : result %s :=\n%s.' % (sig['method'], params, tr.coqty(sig['returns']), body))
+    out.append('Definition %s%s : result (%s) :=\n%s.' % (sig.get('coq_name', sig['method']), params, tr.coqty(sig['returns']), body))
     out.append('End TsvGen.')
     return sig, '\n'.join(out) + '\n', hashlib.sha256(raw).hexdigest()
 
@@ -573,12 +686,17 @@ def main(argv):
             for name in sorted(sig['pinned']):
                 print(name, ast_hash(ms[name]))
             sig['pruned'] = None
+            stmts = strip_doc(list(ms[sig['method']].body))
+            if 'region' in sig:
+                lo, hi = sig['region']
+                print('rest_hash', dump_hash(stmts[:lo] + stmts[hi + 1:]))
+                continue
             tr = Tr(sig)
             env = {'self': sig['self_type']}
             for p in sig['params']:
                 if p['name'] not in sig['static_none']:
                     env[p['name']] = p['type']
-            tr.block(strip_doc(list(ms[sig['method']].body)), env, lambda e: '')
+            tr.block(stmts, env, lambda e: '')
             print('pruned', json.dumps(tr.pruned))
         return 0
     failed = False
